@@ -343,3 +343,4 @@ TECHNIQUE = 'runtime monitor: SGR state-machine decoder over the recorded colore
 LEVEL_TEXT = ('What cpprint / colored_render_to_stream really write (24-bit color forced on) is decoded character by character and compared with the plain rendering and with the style of the innermost '
               'enclosing syntax token computed independently from the SDoc stream, for values from four generators and 864 annotated documents, under every installed pygments style plus the two bundled ones.')
 LEVEL_NOTE = 'Whitespace characters are compared for text only (style differences on blanks are not judged); styles are sampled per value except on a fixed token-covering set which runs under all styles.'
+ANCHORS = ['color.colored_render_to_stream', 'color.styleattrs_to_colorful', 'layout.best_layout']
